@@ -1579,3 +1579,98 @@ Section InterThms.
     intro H. apply check_nfa_inv in H. destruct H as [-> _]. apply inter_pre_lang; assumption.
   Qed.
 End InterThms.
+
+(* ------------------------------------------------------------------ *)
+Lemma NoDup_list_prod {X Y} (l : list X) (m : list Y) : NoDup l -> NoDup m -> NoDup (list_prod l m).
+Proof.
+  intros Hl Hm. induction l as [|a l IH]; simpl; [constructor|].
+  inversion Hl as [|? ? Hna Hl']; subst. apply NoDup_app_intro.
+  - apply NoDup_map_on; [exact Hm|]. intros x y _ _ E. inversion E. reflexivity.
+  - apply IH. exact Hl'.
+  - intros [x y] H1 H2. apply in_map_iff in H1. destruct H1 as [y' [E _]]. inversion E; subst.
+    apply in_prod_iff in H2. destruct H2 as [H2 _]. contradiction.
+Qed.
+
+Section Shuffle.
+  Variables A B : nfa.
+  Hypothesis HvA : valid_nfa A = true.
+  Hypothesis HvB : valid_nfa B = true.
+
+  Let xs := list_prod (n_states A) (n_states B).
+  Let ESh := xedge (shuffle_rowof A B).
+  Let EP := shufE (n_edge A) (n_edge B).
+
+  Lemma shuffle_edge x a y : ESh x a y <-> EP x a y.
+  Proof.
+    unfold ESh, xedge, shuffle_rowof, EP, shufE, n_edge. rewrite !n_targets_arow. split.
+    - intros [r [Er Hy]]. injection Er as <-. apply tab_tg in Hy. destruct Hy as [_ Hy].
+      apply in_app_or in Hy. destruct Hy as [H|H]; apply in_map_iff in H; destruct H as [t [<- Ht]]; simpl; auto.
+    - intro H. eexists. split; [reflexivity|]. apply tab_tg. destruct H as [[H1 H2]|[H1 H2]].
+      + split; [apply in_or_app; left; eapply xtg_key; exact H1|]. apply in_or_app. left.
+        apply in_map_iff. exists (fst y). split; [|exact H1]. destruct y; simpl in *; congruence.
+      + split; [apply in_or_app; right; eapply xtg_key; exact H2|]. apply in_or_app. right.
+        apply in_map_iff. exists (snd y). split; [|exact H2]. destruct y; simpl in *; congruence.
+  Qed.
+
+  Lemma shuffle_rows_ok : rows_ok xs (usyms A B) (shuffle_rowof A B).
+  Proof.
+    intros [x1 x2] r Hx Er a l Hal. apply in_prod_iff in Hx. destruct Hx as [Hx1 Hx2].
+    unfold shuffle_rowof in Er. injection Er as <-. pose proof (tab_entry _ _ _ _ Hal) as [Hk ->]. simpl in *. split.
+    - apply in_app_or in Hk. destruct Hk as [Hk|Hk]; apply in_map_iff in Hk; destruct Hk as [[a' l0] [Ea Hl0]];
+        simpl in Ea; subst a'.
+      + apply usyms_l. eapply arow_entry; eassumption.
+      + apply usyms_r. eapply arow_entry; eassumption.
+    - intros y Hy. apply in_app_or in Hy. destruct Hy as [H|H]; apply in_map_iff in H; destruct H as [t [<- Ht]];
+        apply in_prod_iff; destruct (xtg_In _ _ _ Ht) as [l0 [Hl0 Htl]].
+      + split; [|exact Hx2]. destruct (arow_entry A HvA _ _ _ Hl0) as [_ Hi]. apply Hi. exact Htl.
+      + split; [exact Hx1|]. destruct (arow_entry B HvB _ _ _ Hl0) as [_ Hi]. apply Hi. exact Htl.
+  Qed.
+
+  Lemma shuffle_x0 : In (n_init A, n_init B) xs.
+  Proof.
+    destruct (ops_valid_parts A HvA) as (_ & _ & _ & _ & HiA & _).
+    destruct (ops_valid_parts B HvB) as (_ & _ & _ & _ & HiB & _). apply in_prod_iff. auto.
+  Qed.
+
+  Lemma shuffle_fin_incl : incl (list_prod (n_finals A) (n_finals B)) xs.
+  Proof.
+    destruct (ops_valid_parts A HvA) as (_ & _ & _ & _ & _ & _ & HfA).
+    destruct (ops_valid_parts B HvB) as (_ & _ & _ & _ & _ & _ & HfB).
+    intros [z1 z2] Hz. apply in_prod_iff in Hz. apply in_prod_iff. split; [apply HfA|apply HfB]; apply Hz.
+  Qed.
+
+  Lemma shuffle_pre_valid : valid_nfa (shuffle_pre A B) = true.
+  Proof.
+    destruct (ops_valid_parts A HvA) as (HnA & _). destruct (ops_valid_parts B HvB) as (HnB & _).
+    unfold shuffle_pre. apply asm_valid.
+    - intros x y. apply pidx_inj.
+    - apply shuffle_rows_ok.
+    - apply shuffle_x0.
+    - apply shuffle_fin_incl.
+    - apply NoDup_list_prod; assumption.
+    - apply usyms_NoDup.
+    - left. unfold shuffle_rowof. discriminate.
+  Qed.
+
+  Lemma shuffle_pre_lang : L_nfa (shuffle_pre A B) =L l_shuffle (L_nfa A) (L_nfa B).
+  Proof.
+    intro w. unfold shuffle_pre. rewrite asm_lang.
+    2: intros x y; apply pidx_inj. 2: apply shuffle_rows_ok. 2: apply shuffle_x0. 2: apply shuffle_fin_incl.
+    fold ESh. unfold l_shuffle, L_nfa. split.
+    - intros [[y1 y2] [Hp Hy]]. apply (gpath_iff _ _ shuffle_edge) in Hp. apply shuf_split in Hp.
+      destruct Hp as [u [v [Hs [H1 H2]]]]. apply in_prod_iff in Hy. destruct Hy as [F1 F2]. simpl in H1, H2.
+      exists u, v. split; [exists y1; split; [apply nfa_path_gpath; exact H1|exact F1]|].
+      split; [exists y2; split; [apply nfa_path_gpath; exact H2|exact F2]|exact Hs].
+    - intros [u [v [[f [H1 F1]] [[g [H2 F2]] Hs]]]]. exists (f, g). split; [|apply in_prod_iff; auto].
+      apply (gpath_iff _ _ shuffle_edge). eapply shuf_join; [exact Hs| |]; apply nfa_path_gpath; assumption.
+  Qed.
+
+  Theorem ops_shuffle_total : exists R, nfa_shuffle A B = Ok R /\ valid_nfa R = true.
+  Proof.
+    exists (shuffle_pre A B). split; [|apply shuffle_pre_valid].
+    apply check_nfa_ok. apply shuffle_pre_valid.
+  Qed.
+
+  Theorem ops_shuffle_lang R : nfa_shuffle A B = Ok R -> L_nfa R =L l_shuffle (L_nfa A) (L_nfa B).
+  Proof. intro H. apply check_nfa_inv in H. destruct H as [-> _]. apply shuffle_pre_lang. Qed.
+End Shuffle.
